@@ -392,16 +392,7 @@ theorem wordOK_lex {c : Chunk} (hw : c.wordOK = true) :
       rcases hw with (hw | hw) | hw
       · exact Or.inl (Or.inl hw.1)
       · exact Or.inl (Or.inr hw)
-      · right
-        have hall : ∀ x ∈ h :: t, plainCh x = true := by
-          intro x hx
-          simp only [List.mem_cons] at hx
-          rcases hx with rfl | hx
-          · exact hw.1
-          · exact (List.all_eq_true.mp hw.2) x hx
-        simp only [List.all_eq_true]
-        intro x hx
-        simp [lexCh, hall x hx]
+      · exact Or.inr (pw_all _ _ hw)
 
 theorem good_lexGood : ∀ (cs : List Chunk) (prev : Option Kind), goodFrom prev cs = true →
     lexGood (prev == none) (prev == some .cmt) cs = true
@@ -479,15 +470,23 @@ theorem all_ws_nlsN (n : Nat) : (nlsN n).all wsCh = true := by
 theorem wsCh_NL : wsCh rNL = true := by decide
 theorem wsCh_SP : wsCh rSP = true := by decide
 
+theorem all_ws_braceLead (p : Option Kind) (c : Chunk) : (braceLead p c).all wsCh = true := by
+  unfold braceLead; split <;> simp [wsCh_SP]
+
+theorem countNL_braceLead (p : Option Kind) (c : Chunk) : countNL (braceLead p c) = 0 := by
+  unfold braceLead; split <;> simp [countNL, rSP, rNL]
+
+theorem braceLead_mk (p : Option Kind) (sep : List Rune) (c : Chunk) : braceLead p ⟨sep, c.word⟩ = braceLead p c := rfl
+
 theorem canonSep_all_ws (prev : Option Kind) (N : Nat) (c : Chunk) : (canonSep prev N c).all wsCh = true := by
   cases prev with
   | none => rfl
   | some k =>
     cases k <;> cases hk : c.kind <;>
       simp only [canonSep, hk, List.all_cons, List.all_nil, List.all_append, wsCh_NL, wsCh_SP, all_ws_tabsN,
-        all_ws_nlsN, Bool.and_self, reduceCtorEq, ↓reduceIte] <;>
+        all_ws_nlsN, all_ws_braceLead, Bool.and_self, reduceCtorEq, ↓reduceIte] <;>
       (try (split <;> simp only [List.all_cons, List.all_nil, List.all_append, wsCh_SP, all_ws_tabsN, all_ws_nlsN,
-        Bool.and_self]))
+        all_ws_braceLead, Bool.and_self]))
 
 /-- the canonical separator: non-CR white space, newline iff the original had one, starting
     with a newline after a comment -/
@@ -506,10 +505,10 @@ theorem canonSep_props {prev : Option Kind} {N : Nat} {c : Chunk} {cs : List Chu
   | some k =>
     refine ⟨canonSep_all_ws _ _ _, fun _ => ?_, fun h => absurd h (by simp), fun hk => ?_⟩
     · -- non-empty, and newline iff newline
-      have hplainlike : ∀ (hsome : c.nl = 0 ∨ 0 < c.nl),
-          (if c.nl = 0 then [rSP] else nlsN (min c.nl 2) ++ tabsN N) ≠ [] ∧
-          (0 < countNL (if c.nl = 0 then [rSP] else nlsN (min c.nl 2) ++ tabsN N) ↔ 0 < c.nl) := by
-        intro _
+      have hplainlike : ∀ (bl : List Rune) (hbl : countNL bl = 0) (hsome : c.nl = 0 ∨ 0 < c.nl),
+          (if c.nl = 0 then [rSP] else bl ++ (nlsN (min c.nl 2) ++ tabsN N)) ≠ [] ∧
+          (0 < countNL (if c.nl = 0 then [rSP] else bl ++ (nlsN (min c.nl 2) ++ tabsN N)) ↔ 0 < c.nl) := by
+        intro bl hbl _
         by_cases hnl : c.nl = 0
         · simp [hnl, countNL, rSP, rNL]
         · have : min c.nl 2 ≠ 0 := by omega
@@ -517,16 +516,16 @@ theorem canonSep_props {prev : Option Kind} {N : Nat} {c : Chunk} {cs : List Chu
           · simp only [hnl, ↓reduceIte]
             intro h
             have := congrArg countNL h
-            rw [countNL_append, countNL_nlsN, countNL_tabsN] at this
+            rw [countNL_append, countNL_append, countNL_nlsN, countNL_tabsN, hbl] at this
             simp [countNL] at this; omega
-          · simp only [hnl, ↓reduceIte, countNL_append, countNL_nlsN, countNL_tabsN]; omega
+          · simp only [hnl, ↓reduceIte, countNL_append, countNL_nlsN, countNL_tabsN, hbl]; omega
       cases k with
       | plain =>
         simp only [Bool.and_eq_true, Bool.not_eq_true', List.isEmpty_eq_false_iff] at hcond
         cases hk : c.kind with
-        | plain => simpa [canonSep, hk] using hplainlike (by omega)
-        | dq => simpa [canonSep, hk] using hplainlike (by omega)
-        | cmt => simpa [canonSep, hk] using hplainlike (by omega)
+        | plain => simpa [canonSep, hk] using hplainlike (braceLead _ c) (countNL_braceLead _ c) (by omega)
+        | dq => simpa [canonSep, hk] using hplainlike (braceLead _ c) (countNL_braceLead _ c) (by omega)
+        | cmt => simpa [canonSep, hk] using hplainlike (braceLead _ c) (countNL_braceLead _ c) (by omega)
         | opn =>
           rw [hk] at hcond
           simp only [beq_iff_eq] at hcond
@@ -539,9 +538,9 @@ theorem canonSep_props {prev : Option Kind} {N : Nat} {c : Chunk} {cs : List Chu
       | dq =>
         simp only [Bool.and_eq_true, Bool.not_eq_true', List.isEmpty_eq_false_iff] at hcond
         cases hk : c.kind with
-        | plain => simpa [canonSep, hk] using hplainlike (by omega)
-        | dq => simpa [canonSep, hk] using hplainlike (by omega)
-        | cmt => simpa [canonSep, hk] using hplainlike (by omega)
+        | plain => simpa [canonSep, hk] using hplainlike (braceLead _ c) (countNL_braceLead _ c) (by omega)
+        | dq => simpa [canonSep, hk] using hplainlike (braceLead _ c) (countNL_braceLead _ c) (by omega)
+        | cmt => simpa [canonSep, hk] using hplainlike (braceLead _ c) (countNL_braceLead _ c) (by omega)
         | opn =>
           rw [hk] at hcond
           simp only [beq_iff_eq] at hcond
@@ -558,9 +557,9 @@ theorem canonSep_props {prev : Option Kind} {N : Nat} {c : Chunk} {cs : List Chu
       | cls =>
         simp only [Bool.and_eq_true, decide_eq_true_eq, bne_iff_ne, ne_eq] at hcond
         cases hk : c.kind with
-        | plain => simpa [canonSep, hk] using hplainlike (by omega)
-        | dq => simpa [canonSep, hk] using hplainlike (by omega)
-        | cmt => simpa [canonSep, hk] using hplainlike (by omega)
+        | plain => simpa [canonSep, hk] using hplainlike (braceLead _ c) (countNL_braceLead _ c) (by omega)
+        | dq => simpa [canonSep, hk] using hplainlike (braceLead _ c) (countNL_braceLead _ c) (by omega)
+        | cmt => simpa [canonSep, hk] using hplainlike (braceLead _ c) (countNL_braceLead _ c) (by omega)
         | opn => exact absurd hk hcond.2
         | cls =>
           simp only [canonSep, hk, countNL, countNL_tabsN]
@@ -653,14 +652,16 @@ theorem good_canon : ∀ (cs : List Chunk) (prev : Option Kind) (N : Nat), goodF
 
 theorem canonSep_idem (prev : Option Kind) (N : Nat) (c : Chunk) :
     canonSep prev N ⟨canonSep prev N c, c.word⟩ = canonSep prev N c := by
-  have hplainlike : (if countNL (if c.nl = 0 then [rSP] else nlsN (min c.nl 2) ++ tabsN N) = 0 then [rSP]
-        else nlsN (min (countNL (if c.nl = 0 then [rSP] else nlsN (min c.nl 2) ++ tabsN N)) 2) ++ tabsN N)
-      = (if c.nl = 0 then [rSP] else nlsN (min c.nl 2) ++ tabsN N) := by
+  have hplainlike : ∀ (bl : List Rune), countNL bl = 0 →
+      (if countNL (if c.nl = 0 then [rSP] else bl ++ (nlsN (min c.nl 2) ++ tabsN N)) = 0 then [rSP]
+        else bl ++ (nlsN (min (countNL (if c.nl = 0 then [rSP] else bl ++ (nlsN (min c.nl 2) ++ tabsN N))) 2) ++ tabsN N))
+      = (if c.nl = 0 then [rSP] else bl ++ (nlsN (min c.nl 2) ++ tabsN N)) := by
+    intro bl hbl
     by_cases hnl : c.nl = 0
     · simp [hnl, countNL, rSP, rNL]
     · have h2 : min c.nl 2 ≠ 0 := by omega
       have h3 : min (min c.nl 2) 2 = min c.nl 2 := by omega
-      simp [hnl, countNL_append, countNL_nlsN, countNL_tabsN, h2, h3]
+      simp [hnl, countNL_append, countNL_nlsN, countNL_tabsN, hbl, h2, h3]
   cases prev with
   | none => rfl
   | some k =>
@@ -675,23 +676,23 @@ theorem canonSep_idem (prev : Option Kind) (N : Nat) (c : Chunk) :
       cases hk : c.kind with
       | opn => simp only [canonSep, kind_with_sep, hk]
       | cls => simp only [canonSep, kind_with_sep, hk]
-      | plain => simpa [canonSep, kind_with_sep, nl_mk, hk] using hplainlike
-      | dq => simpa [canonSep, kind_with_sep, nl_mk, hk] using hplainlike
-      | cmt => simpa [canonSep, kind_with_sep, nl_mk, hk] using hplainlike
+      | plain => simpa [canonSep, kind_with_sep, nl_mk, braceLead_mk, hk] using hplainlike (braceLead _ c) (countNL_braceLead _ c)
+      | dq => simpa [canonSep, kind_with_sep, nl_mk, braceLead_mk, hk] using hplainlike (braceLead _ c) (countNL_braceLead _ c)
+      | cmt => simpa [canonSep, kind_with_sep, nl_mk, braceLead_mk, hk] using hplainlike (braceLead _ c) (countNL_braceLead _ c)
     | dq =>
       cases hk : c.kind with
       | opn => simp only [canonSep, kind_with_sep, hk]
       | cls => simp only [canonSep, kind_with_sep, hk]
-      | plain => simpa [canonSep, kind_with_sep, nl_mk, hk] using hplainlike
-      | dq => simpa [canonSep, kind_with_sep, nl_mk, hk] using hplainlike
-      | cmt => simpa [canonSep, kind_with_sep, nl_mk, hk] using hplainlike
+      | plain => simpa [canonSep, kind_with_sep, nl_mk, braceLead_mk, hk] using hplainlike (braceLead _ c) (countNL_braceLead _ c)
+      | dq => simpa [canonSep, kind_with_sep, nl_mk, braceLead_mk, hk] using hplainlike (braceLead _ c) (countNL_braceLead _ c)
+      | cmt => simpa [canonSep, kind_with_sep, nl_mk, braceLead_mk, hk] using hplainlike (braceLead _ c) (countNL_braceLead _ c)
     | cls =>
       cases hk : c.kind with
       | opn => simp only [canonSep, kind_with_sep, hk]
       | cls => simp only [canonSep, kind_with_sep, hk]
-      | plain => simpa [canonSep, kind_with_sep, nl_mk, hk] using hplainlike
-      | dq => simpa [canonSep, kind_with_sep, nl_mk, hk] using hplainlike
-      | cmt => simpa [canonSep, kind_with_sep, nl_mk, hk] using hplainlike
+      | plain => simpa [canonSep, kind_with_sep, nl_mk, braceLead_mk, hk] using hplainlike (braceLead _ c) (countNL_braceLead _ c)
+      | dq => simpa [canonSep, kind_with_sep, nl_mk, braceLead_mk, hk] using hplainlike (braceLead _ c) (countNL_braceLead _ c)
+      | cmt => simpa [canonSep, kind_with_sep, nl_mk, braceLead_mk, hk] using hplainlike (braceLead _ c) (countNL_braceLead _ c)
 
 theorem canon_idem : ∀ (cs : List Chunk) (prev : Option Kind) (N : Nat),
     canon prev N (canon prev N cs) = canon prev N cs
